@@ -2,6 +2,7 @@
 """regenerates MANIFEST.json from the table below (one source of truth for the claimed checks)"""
 import json
 import os
+import re
 import subprocess
 
 ROOT = os.path.dirname(os.path.dirname(os.path.abspath(__file__)))
@@ -195,6 +196,18 @@ CLAIMS = {
              "untouched, inversion and the affine up-scaling identity of linear models.",
         note="Partial: 'up to floating-point rounding' clauses on non-lattice data, magnitudes 1e-6..1e6 and near-constant columns are not "
              "decided (rounding is outside what TLC can decide)."),
+    "C06": dict(
+        category="other", design_ref="DESIGN.md §3 C06",
+        technique="TLC re-computation of recorded values/gradients at lattice points (exact five-point stencil identity, first-order convexity inequality, loss values/subgradients/error rules on integer data: PolyCalculus.tla) + TLC-asserted central-difference / tolerance oracles for the transcendental kernels",
+        text="Scoped: on the integer lattice TLC decides exactly, from recorded integers, that the gradient of the 12 polynomial benchmark "
+             "objectives, the 11 constraint kinds and the tuner's surrogate functions equals the (exact) five-point stencil of their own values "
+             "along arbitrary lattice directions, that value-only and value+gradient calls agree, that every declared convexity / strong-"
+             "convexity coefficient satisfies the first-order inequality on lattice pairs, and that mse/mae/hinge/squared-hinge/pinball values, "
+             "(sub)gradients and the absolute / multi-label / arg-max error rules of all 17 losses follow their definitions; the remaining "
+             "prototypes and the exp/log/atan losses are covered by driver oracles (central differences, tolerance inequalities) asserted by the "
+             "same trace specification.",
+        note="Partial: real-valued points are decided by floating-point oracles in the driver, not by TLC; no adversarial search on the "
+             "violation; linear/gboost objectives' gradients are covered under C09. One open finding (s-classnll with one output)."),
 }
 
 NOT_YET = "machinery not finished (see DESIGN.md §7: a property is claimed only once its quick check passes and its demo mutations are caught)"
@@ -209,6 +222,8 @@ def main():
         if pid not in CLAIMS:
             continue
         c = CLAIMS[pid]
+        lv = re.search(r'^LEVEL = "(\w+)"', open(os.path.join(ROOT, "checks", pid.lower() + ".py")).read(), re.M).group(1)
+        assert lv == c["category"], (pid, lv, c["category"])
         checks.append({
             "property_id": pid,
             "quick_cmd": "bin/check %s --tier quick" % pid,
